@@ -139,6 +139,13 @@ func verifC13Step(n int) {
 			verifAssume(!verifBytesEq(dig[i], dig[j]), "initial manifest lists each digest once")
 		}
 	}
+	// a file the manifest no longer lists (its digest moved to another candidate) may still exist
+	if verifNondetBool("orphan_file") {
+		head.put("out/"+verifPoolNames[2-ci]+".binarypb", []byte{0xD0, 0})
+		if head.find("out/"+cand+".binarypb") < 0 {
+			head.put("out/"+cand+".binarypb", []byte{0xD0, 0})
+		}
+	}
 	if n > 0 || verifNondetBool("has_manifest") {
 		head.put(releaseManifestPath, verifSerializeManifest(pre))
 	}
